@@ -254,6 +254,19 @@ def oracle(case):
                 in_ec |= {p["label"] for p in procs if p["label"] in str(g)}
         if in_ec != exp_ctx:
             out.bad("event-context-group-differs", f"time {t}: {otext!r} expected context {sorted(exp_ctx)}\n{tsv}")
+    # rows that share an onset act as one time point: the further entries of that time carry the same context and
+    # nothing of their own
+    for j, tj in enumerate(onsets):
+        i0 = rep[round(tj, 6)]
+        if j == i0:
+            continue
+        exp_ctx = {p["label"] for p in procs if p["start"] < round(tj, 6) and
+                   (proc_end_point(p, pts) is None or round(tj, 6) < proc_end_point(p, pts))}
+        got_ctx = {p["label"] for p in procs if p["label"] in em.contexts[j]}
+        if got_ctx != exp_ctx:
+            out.bad("context-differs-on-further-row-of-a-time-point", f"time {tj} (index {j}, first index {i0}): context "
+                                                                      f"has {sorted(got_ctx)} expected {sorted(exp_ctx)}\n{tsv}")
+            break
     # plain tags are kept at their time point
     for r in rows:
         i = rep[round(r["onset"], 6)]
